@@ -541,13 +541,18 @@ func (d *Decoder) decodeSymbolTo(v reflect.Value) error {
 	switch v.Kind() {
 	case reflect.String:
 		if val != nil {
+			if val.Text == nil {
+				return fmt.Errorf("ion: cannot decode a symbol with unknown text to a string")
+			}
 			v.SetString(*val.Text)
 		}
 		return nil
 
 	case reflect.Struct:
 		if v.Type() == symbolType {
-			v.Set(reflect.ValueOf(val))
+			if val != nil {
+				v.Set(reflect.ValueOf(*val))
+			}
 			return d.attachAnnotations(v)
 		}
 		return d.decodeToStructWithAnnotation(v, symbolType.Kind())
@@ -909,7 +914,22 @@ func (d *Decoder) attachAnnotations(v reflect.Value) error {
 			if err != nil {
 				return err
 			}
-			subValue.Set(reflect.ValueOf(annotations))
+
+			switch subValue.Interface().(type) {
+			case []SymbolToken:
+				subValue.Set(reflect.ValueOf(annotations))
+			case []string:
+				var texts []string
+				for _, a := range annotations {
+					if a.Text == nil {
+						return fmt.Errorf("ion: cannot decode an annotation with unknown text to a string")
+					}
+					texts = append(texts, *a.Text)
+				}
+				subValue.Set(reflect.ValueOf(texts))
+			default:
+				return fmt.Errorf("ion: annotations field must be a []SymbolToken or []string, not %v", subValue.Type())
+			}
 			break
 		}
 	}
